@@ -27,9 +27,10 @@ FVStrings == AllBytes1 \cup Bytes(QEAlpha, IF Deep THEN 3 ELSE 1)
 AbTok == {<<97>>, <<32>>, <<46>>, <<44>>, <<195, 169>>, <<226, 130, 172>>, <<255>>, <<10>>}
 AbTok3 == {<<97>>, <<32>>, <<195, 169>>}
 Flat(Q) == {Flatten(q) : q \in Q}
-AbShort == Flat(Bytes(AbTok, IF Deep THEN 4 ELSE 3))
-AbLong == Flat(UNION {Fn(k, AbTok3) : k \in 4..(IF Deep THEN 7 ELSE 5)})
-AbCases == SQ({<<s, n>> : s \in AbShort, n \in (IF Deep THEN -1..7 ELSE {-1, 0, 2, 3, 4, 5, 6})})
+AbTok6 == {<<97>>, <<32>>, <<46>>, <<195, 169>>, <<226, 130, 172>>, <<255>>}
+AbShort == Flat(Bytes(AbTok, 3)) \cup (IF Deep THEN Flat(Fn(4, AbTok6)) ELSE {})
+AbLong == Flat(UNION {Fn(k, AbTok3) : k \in 4..(IF Deep THEN 6 ELSE 5)})
+AbCases == SQ({<<s, n>> : s \in AbShort, n \in (IF Deep THEN {-1, 0, 2, 3, 4, 5, 7} ELSE {-1, 0, 2, 3, 4, 5, 6})})
            \o SQ({<<s, n>> : s \in AbLong, n \in 3..(IF Deep THEN 9 ELSE 6)})
 
 (* ---- JSON white space ---- *)
@@ -65,7 +66,7 @@ UJCases == SQ({<<d, t>> : d \in (IF Deep THEN UJData ELSE Padded), t \in Targets
            \o (IF Deep THEN SQ({<<d, "any">> : d \in Fn(3, JPunct)}) ELSE SQ({<<d, "any">> : d \in UJData}))
 UYData == AllBytes1 \cup Fn(2, YPunct) \cup Padded
 UYCases == SQ({<<d, t>> : d \in (IF Deep THEN UYData ELSE Padded), t \in {"any", "ints", "map", "nil", "nonptr"}})
-           \o (IF Deep THEN SQ({<<d, "any">> : d \in Fn(3, YPunct)}) ELSE SQ({<<d, "any">> : d \in UYData}))
+           \o (IF Deep THEN SQ({<<d, "any">> : d \in Fn(3, {45, 32, 58, 10, 91, 123, 38, 42, 33, 124, 39, 255})}) ELSE SQ({<<d, "any">> : d \in UYData}))
 
 (* ---- integers ---- *)
 Ints == {BI!Zero, BI!One, BI!FromInt(-1), BI!FromInt(2), BI!FromInt(-2), BI!FromInt(22), MaxI64, BI!Sub(MaxI64, BI!One),
@@ -88,7 +89,7 @@ SplNCases == SQ({<<s, p, n>> : s \in SplS, p \in Seps, n \in {-1, 0, 1, 2, 3}})
 Elems == {<<>>, <<97>>, <<98, 99>>}
 JoinCases == Two(Bytes(Elems, 3), {<<>>, <<44>>, <<45, 45>>})
 RC == {97, 195, 169, 226, 130, 172, 255, 240, 159, 152, 128}
-RuneCountCases == One(Bytes(RC, IF Deep THEN 4 ELSE 3))
+RuneCountCases == One(Bytes(RC, 3) \cup (IF Deep THEN Fn(4, {97, 195, 169, 226, 130, 255}) ELSE {}))
 IntLists == Bytes({1, 2, 3}, 4)
 StrLists == Bytes(Elems, 3)
 RevCases == SQ({<<"ints", l>> : l \in IntLists}) \o SQ({<<"strs", l>> : l \in StrLists})
@@ -103,7 +104,7 @@ CA8 == {97, 122, 65, 90, 53, 95, 32, 64}
 CaseStrings == IF Deep THEN Bytes(CA, 3) \cup Bytes(CA8, 4) ELSE Bytes(CA8, 3) \cup Bytes(CA, 2)
 CapTok == {<<196, 177>>, <<201, 144>>, <<195, 169>>, <<255>>, <<32>>, <<97>>}      \* dotless i, turned a, e-acute, an invalid byte
 CapStrings == CaseStrings \cup Flat(Bytes(CapTok, 3))
-KebabStrings == (IF Deep THEN Bytes(CA, 4) ELSE Bytes(CA, 3)) \cup UNION {Fn(k, {97, 66, 53, 45}) : k \in 4..(IF Deep THEN 6 ELSE 4)}
+KebabStrings == (IF Deep THEN Bytes(CA \ {96, 123}, 4) \cup Bytes(CA, 3) ELSE Bytes(CA, 3)) \cup UNION {Fn(k, {97, 66, 53, 45}) : k \in 4..(IF Deep THEN 6 ELSE 4)}
 
 (* ---- parsers ---- *)
 PI == {45, 43, 48, 49, 57, 97, 122, 95, 32}
@@ -113,7 +114,7 @@ BigLits == { <<DecTextOf(MaxI64), 10>>, <<DecTextOf(BI!Add(MaxI64, BI!One)), 10>
              <<DecTextOf(BI!Sub(MinI64, BI!One)), 10>>, <<Hex16(55), 16>>, <<Hex16(56), 16>>, <<<<45>> \o Hex16(56), 16>>,
              <<<<45>> \o Hex16(56), 17>>, <<[i \in 1..40 |-> 57], 10>>, <<[i \in 1..64 |-> 49], 2>>, <<[i \in 1..63 |-> 49], 2>> }
 PICases == (IF Deep THEN Two(Bytes(PI, 3), Bases) ELSE Two(Bytes(PI, 2), Bases) \o Two(Fn(3, PI), {10, 16})) \o SQ(BigLits)
-PFCases == One(Bytes({48, 49, 46, 101, 45, 120, 43, 78, 73, 95}, IF Deep THEN 4 ELSE 3) \cup AllBytes1)
+PFCases == One((IF Deep THEN Bytes({48, 49, 46, 101, 45, 120, 43, 95}, 4) ELSE {}) \cup Bytes({48, 49, 46, 101, 45, 120, 43, 78, 73, 95}, 3) \cup AllBytes1)
 PDCases == One(Bytes({49, 48, 104, 109, 115, 110, 117, 46, 45}, IF Deep THEN 4 ELSE 3) \cup AllBytes1
                \cup {<<51, 48, 48, 109, 115>>, <<50, 104>>, <<57, 57, 57, 57, 57, 57, 104>>, <<49, 194, 181, 115>>})
 Layouts == {<<>>, <<50, 48, 48, 54, 45, 48, 49, 45, 48, 50>>, <<255>>, <<77, 111, 110>>, <<50, 48, 48, 54>>}
@@ -191,8 +192,11 @@ N == Len(Items)
 NB == 64
 VARIABLES b, c
 Init == b = 0 /\ c = 0
+\* (only the cases of functions for which ImplMeetsRef / RefConsistent say something become states)
+McFns == {"table", "QueryEscape", "Abbreviate", "ToKebab", "Split", "SplitN", "Replace", "Trim", "Index", "IndexAny", "Base64",
+          "Max", "Abs", "FormatInt", "ToLower", "Capitalize"}
 Next == \/ b = 0 /\ c = 0 /\ b' \in 1..NB /\ c' = 0
-        \/ b > 0 /\ c = 0 /\ b' = b /\ b <= N /\ c' \in {b + NB * j : j \in 0..((N - b) \div NB)}
+        \/ b > 0 /\ c = 0 /\ b' = b /\ b <= N /\ c' \in {i \in {b + NB * j : j \in 0..((N - b) \div NB)} : Items[i].fn \in McFns}
 
 (* ---- Part = "main" ---- *)
 ImplMeetsRef == (c > 0 /\ Part = "main") =>
